@@ -923,7 +923,9 @@ func (c *FnCtx) checkInvs(st *State, ls *LoopSpec, kind string, site ast.Node, o
 	// later invariants may use earlier ones (each is proved before it is used)
 	save := len(st.pc)
 	for i, inv := range ls.Invs {
+		c.hintMode++
 		g := c.specEvalAt(st, inv.Expr, env, c.pre, site)
+		c.hintMode--
 		c.oblige(st, kind, site, fmt.Sprintf("loop%d.%d", ord, i+1), inv.Text, g)
 		st.pc = append(st.pc, g)
 	}
@@ -938,7 +940,10 @@ func (c *FnCtx) assumeInvs(st *State, ls *LoopSpec, site ast.Node, env map[strin
 	c.curEntry = ls.entry
 	defer func() { c.curEntry = saveEntry }()
 	for _, inv := range ls.Invs {
-		st.pc = append(st.pc, c.specEvalAt(st, inv.Expr, env, c.pre, site))
+		c.hintMode++
+		t := c.specEvalAt(st, inv.Expr, env, c.pre, site)
+		c.hintMode--
+		st.pc = append(st.pc, t)
 	}
 }
 
